@@ -3,8 +3,9 @@
    arrival forms x context chains) (mode emit) and validate the recorded compile results of the real compiler
    against the specification's expectation (mode validate).
    A case id is <<m, path>>: m = <<0, index into MM, 0, 0>> for a table entry, <<core, form 1, form 2, layout>>
-   for a derived mismatch. *)
-EXTENDS SyltArrival, Json, IOUtils
+   for a derived mismatch.  Emission walks key by key (initial states: the keys; one Emit step per chain of the
+   key), so that no set of all cases is ever built. *)
+EXTENDS SyltArrival, Json, IOUtils, FiniteSetsExt
 
 VARIABLES k, pc
 vars == <<k, pc>>
@@ -16,19 +17,23 @@ Full == IF "FULL" \in DOMAIN IOEnv THEN IOEnv.FULL = "1" ELSE FALSE        \* ar
 Pairs == IF "PAIRS" \in DOMAIN IOEnv THEN IOEnv.PAIRS = "1" ELSE FALSE     \* arrival: every ordered pair of forms
 Seed == IF "SEED" \in DOMAIN IOEnv THEN atoi(IOEnv.SEED) % 1000 ELSE 1
 Mod == IF "MOD" \in DOMAIN IOEnv THEN atoi(IOEnv.MOD) ELSE 59
-
 \* big universes are emitted, replayed and validated in NSlice slices (slice = a hash of the case id)
 NSlice == IF "NSLICE" \in DOMAIN IOEnv THEN atoi(IOEnv.NSLICE) ELSE 1
 Slice == IF "SLICE" \in DOMAIN IOEnv THEN atoi(IOEnv.SLICE) ELSE 0
-SliceOf(id) == LET m == id[1]
-                   p == id[2] IN
-               (m[1] * 37 + m[2] * 11 + m[3] * 5 + m[4] + CtxNo(p[1]) * 53 + (IF Len(p) > 1 THEN CtxNo(p[2]) * 17 ELSE 0)) % NSlice
-InSlice(S) == IF NSlice = 1 THEN S ELSE {id \in S : SliceOf(id) = Slice}
+SliceOf(m, p) == (m[1] * 37 + m[2] * 11 + m[3] * 5 + m[4] + CtxNo(p[1]) * 53 + (IF Len(p) > 1 THEN CtxNo(p[2]) * 17 ELSE 0)
+                  + (IF Len(p) > 2 THEN CtxNo(p[3]) * 7 ELSE 0)) % NSlice
 
-TableIds == InSlice({<<<<0, id[1], 0, 0>>, id[2]>> : id \in CaseIds(D)})
+TableKeys == {<<0, i, 0, 0>> : i \in 1..NM}
 Keys == AKeys(Pairs)
-ArrIds == InSlice(AIds(Full, Pairs, Seed, Mod))
-Ids == TableIds \cup ArrIds
+AllKeys == TableKeys \cup Keys
+\* the chains of a key (in this slice)
+PathsOf(m) == IF m[1] = 0 THEN PathsFor(MM[m[2]], D)
+              ELSE IF IsPairOnly(m) THEN PairChains(m) ELSE AChains(m, Full, Seed, Mod)
+SlicePaths(m) == IF NSlice = 1 THEN PathsOf(m) ELSE {p \in PathsOf(m) : SliceOf(m, p) = Slice}
+KeyKnown(m) == (m[1] = 0 /\ m[2] \in 1..NM /\ m[3] = 0 /\ m[4] = 0)
+               \/ (m[1] \in 1..NC /\ <<m[2], m[3], m[4]>> \in FormVecs(Cores[m[1]], Pairs) /\ Applicable(m))
+InUniverse(m, p) == KeyKnown(m) /\ p \in SlicePaths(m)
+CountOver(S) == FoldSet(LAMBDA m, acc : acc + Cardinality(SlicePaths(m)), 0, S)
 
 \* ---- spec-level sanity of the universe (a failing ASSUME is a wrong specification: tool error)
 ASSUME KindsDistinct
@@ -43,23 +48,20 @@ ASSUME (Mode = "emit" /\ Slice = 0) => CellsInhabited(CaseIds(D))
 ASSUME (Mode = "emit" /\ Slice = 0) => ProgramsDiffer(CaseIds(D))
 ASSUME (Mode = "emit" /\ Slice = 0) => CellsMet(Pairs) /\ KeysPlaced(Keys, Full, Seed, Mod)
 ASSUME Mode = "emit" => PrintT(<<"PRELUDE", ToJson(Prelude)>>)
-ASSUME Mode = "emit" => PrintT(<<"UNIVERSE", ToJson([cases |-> Cardinality(Ids), table_cases |-> Cardinality(TableIds),
-                                                      arrival_cases |-> Cardinality(ArrIds), kinds |-> NM, depth |-> D,
+ASSUME Mode = "emit" => PrintT(<<"UNIVERSE", ToJson([table_cases |-> CountOver(TableKeys), arrival_cases |-> CountOver(Keys),
+                                                      keys |-> Cardinality(AllKeys), kinds |-> NM, depth |-> D,
                                                       contexts |-> Cardinality(Contexts), cores |-> NC, forms |-> NF,
                                                       derived |-> Cardinality(Keys), nslice |-> NSlice, slice |-> Slice,
                                                       form_names |-> [i \in 1..NF |-> FName(Forms[i])],
                                                       core_kinds |-> [i \in 1..NC |-> Cores[i].kind]])>>)
 
 Rec == IF Mode = "validate" THEN ndJsonDeserialize(IOEnv.TRACE) ELSE <<>>
-RecId(j) == <<Rec[j].id.m, Rec[j].id.path>>
-RecIds == {RecId(j) : j \in 1..Len(Rec)}
 KindOf(m) == IF m[1] = 0 THEN MM[m[2]].kind ELSE AKind(m)
 
 Init == /\ pc = "start"
-        /\ IF Mode = "emit" THEN k \in Ids
-           ELSE /\ Assert(RecIds \subseteq Ids, "a record is not a case of the specification's universe")
-                /\ Assert(\A j \in 1..Len(Rec) : Rec[j].id.kind = KindOf(Rec[j].id.m), "a record names another mismatch kind than its key")
-                /\ Assert(Complete => Ids \subseteq RecIds, "the records do not cover the specification's universe")
+        /\ IF Mode = "emit" THEN k \in {<<m, <<>>>> : m \in AllKeys}
+           ELSE /\ Assert(Complete => Cardinality({<<Rec[j].id.m, Rec[j].id.path>> : j \in 1..Len(Rec)}) = CountOver(AllKeys),
+                          "the records do not cover the specification's universe")
                 /\ k \in 1..Len(Rec)
 
 IdRec(id) ==
@@ -76,10 +78,15 @@ IdRec(id) ==
 Base(id) == IF id[1][1] = 0 THEN BaseProgram(<<id[1][2], id[2]>>) ELSE AProgram(id[1], id[2], FALSE)
 Planted(id) == IF id[1][1] = 0 THEN PlantedProgram(<<id[1][2], id[2]>>) ELSE AProgram(id[1], id[2], TRUE)
 
-Emit == /\ Mode = "emit" /\ pc = "start" /\ pc' = "done" /\ k' = k
-        /\ PrintT(<<"REPLAY", ToJson([id |-> IdRec(k), base |-> Base(k), planted |-> Planted(k)])>>)
+Emit == /\ Mode = "emit" /\ pc = "start" /\ pc' = "done"
+        /\ \E p \in SlicePaths(k[1]) :
+             /\ k' = <<k[1], p>>
+             /\ PrintT(<<"REPLAY", ToJson([id |-> IdRec(k'), base |-> Base(k'), planted |-> Planted(k')])>>)
 
+\* a record must be a case of the universe (of this slice) under the kind its key has; then its verdict is evaluated
 Validate == /\ Mode = "validate" /\ pc = "start" /\ pc' = "done" /\ k' = k
+            /\ Assert(InUniverse(Rec[k].id.m, Rec[k].id.path), "a record is not a case of the specification's universe")
+            /\ Assert(Rec[k].id.kind = KindOf(Rec[k].id.m), "a record names another mismatch kind than its key")
             /\ LET v == Verdict(Rec[k]) IN
                IF v = "ok" THEN TRUE
                ELSE PrintT(<<"REJECT", ToJson([rec |-> k, why |-> v])>>)
